@@ -34,7 +34,7 @@ FLOORS = {'*': {
     'kind:batch': 300, 'kind:batch-all-notifications': 10, 'kind:batch-duplicate-ids': 20, 'kind:batch-too-large': 20,
     'kind:batch-invalid-element': 50, 'kind:batch-empty': 2, 'elem:notify-exception': 20, 'elem:notify-unbound': 20,
     'elem:call-ok': 200, 'elem:call-unbound': 50, 'elem:call-unknown-method': 50, 'elem:call-rpc-error': 50,
-    'elem:call-exception': 50, 'flavour:async-plain': 200, 'flavour:sync-inert': 200, 'flavour:async-inert': 200, 'flavour:sync-debuglog': 200, 'flavour:async-debuglog': 200,
+    'elem:call-exception': 50, 'flavour:async-plain': 200, 'flavour:sync-inert': 200, 'flavour:async-inert': 200, 'flavour:sync-debuglog': 200, 'flavour:async-debuglog': 200, 'flavour:async-sequential': 200,
     'metamorphic:batches': 200, 'cfg:sync': 500, 'cfg:async': 500, 'id:str-next-to-int': 10,
 }}
 
